@@ -447,8 +447,9 @@ class C01(LockCheck):
 
 
 class C02(LockCheck):
-    lean_module = 'CppUtil.Props.C02'
-    theorems = ['CppUtil.Props.c02_blocked_lock_pess', 'CppUtil.Props.c02_blocked_lock_opt',
+    lean_module = 'CppUtil.Props.C02Client'
+    theorems = ['CppUtil.Props.c02_client_quiescent_lock_free_pess', 'CppUtil.Props.c02_client_quiescent_lock_free_opt',
+                'CppUtil.Props.c02_blocked_lock_pess', 'CppUtil.Props.c02_blocked_lock_opt',
                 'CppUtil.Props.c02_blocked_upgrade_pess', 'CppUtil.Props.c02_blocked_upgrade_opt',
                 'CppUtil.Props.c02_blocked_reader_opt', 'CppUtil.Props.c02_solo_acquire',
                 'CppUtil.Props.c02_quiescent_free_pess', 'CppUtil.Props.c02_quiescent_free_opt',
